@@ -135,6 +135,32 @@ int main(int argc, char **argv)
 			vf_set_add(&VF_STATES, c + 1);
 			vf_nontrivial(c + 1);
 		}
+	} else if (!strcmp(VF.space, "lengths")) {
+		/* EVERY length 0..maxlen in one call, at every alignment 0..7, against the bitwise definition (kept incrementally):
+		 * block-wise or unrolled implementations have their seams at particular lengths and residues */
+		int maxlen = atoi(vf_extra("maxlen", "9000")), base, al;
+		uint8_t *store = malloc((size_t) maxlen + 64);
+		size_t i;
+		for (i = 0; i < (size_t) maxlen + 64; ++i) store[i] = family_byte(3, i);
+		for (base = 0; base <= maxlen; base += 64)
+		for (al = 0; al < 8; ++al) {
+			uint8_t *buf = store + 16 + al;
+			uint16_t want;
+			int len;
+			if (!vf_case("every length %d..%d at alignment %d in one call", base, base + 63 <= maxlen ? base + 63 : maxlen, al)) continue;
+			want = ref_crc16(0xA5C3, buf, (size_t) base);
+			for (len = base; len < base + 64 && len <= maxlen; ++len) {
+				uint16_t c = 0xA5C3;
+				if (len > base) want = ref_crc16(want, buf + len - 1, 1);
+				lha_crc16_buf(&c, buf, (size_t) len);
+				++VF.transitions;
+				if (c != want) { vf_viol("crc-length", "len=%d align=%d: got=%04x want=%04x", len, al, c, want); break; }
+			}
+			vf_step(vf_mix(want, base * 8 + al));
+			vf_nontrivial(vf_mix(base, al) + 1);
+			vf_outcome(want);
+		}
+		free(store);
 	} else if (!strcmp(VF.space, "long")) {
 		/* lengths around 2^16, 2^17, 2^20 and 2^24: whole, and split at boundary points, two alignments */
 		static const size_t lens[] = { 65534, 65535, 65536, 65537, 65538, 131071, 131072, 131073, 1048575, 1048576, 1048577, 16777215, 16777216, 16777217 };
